@@ -188,6 +188,8 @@ def gen_C03(seed):
         tgt = round(cur + direction * frac * L / nops, 6)
         if mode > 0.93:
             tgt = cur                                          # already there: no-op
+        elif mode > 0.85 and j > 0:
+            tgt = round(cur - direction * r.uniform(0.1, 0.6) * L / nops, 6)     # behind the current time: reversal
         ops.append({"op": "integrate", "t": tgt})
         cur = tgt
     scn["ops"] = ops
@@ -716,6 +718,9 @@ def gen_EV(seed, profile):
         x = r.random()
         if x < 0.3:
             op["t"] = "inf" if direction > 0 else "-inf"
+            for e in evs:
+                if e["terminal"] and e["kind"] == "time":
+                    e["direction"] = 0          # must be guaranteed to fire, whatever the direction of integration
             if not any(e["terminal"] and e["kind"] == "time" for e in evs):
                 evs.append({"kind": "time", "comp": 0, "c": round(t0 + (tf - t0) * r.uniform(0.5, 0.95), 5), "scale": 1.0, "direction": 0, "terminal": True})
                 op["events"] = list(range(len(evs)))
